@@ -180,7 +180,10 @@ func c13Violate(c *Ctx, v Violation) {
 
 // ------------------------------------------------------------------ error classes
 
-var reParseIdx = regexp.MustCompile(`failed to parse expression (\d+) \(expected`)
+// the index of the expression the external parser rejected, as the library reports it; the
+// wording around the number is not relied upon beyond "expression <n>" ("failed to parse
+// expression 3 (expected 5 …", "cannot parse expression #3: …" both match)
+var reParseIdx = regexp.MustCompile(`(?i)pars\w*\s+(?:of\s+)?expression\s+#?(\d+)`)
 
 func decErr(err error) string {
 	var se *message.ErrStringSizeExceeded
@@ -210,7 +213,12 @@ func decErr(err error) string {
 	case strings.HasPrefix(m, "EOF"), has(": EOF"):
 		return "eom"
 	}
-	return errClass(err)
+	if c := errClass(err); !strings.HasPrefix(c, "other:") {
+		return c
+	}
+	// wording the harness does not know: "an error", no text in the compared line (diffBatch accepts
+	// "other:" wherever the model also reports an error)
+	return "other:"
 }
 
 // ------------------------------------------------------------------ one decoder under test
@@ -351,8 +359,11 @@ func (w *dworld) runOp(opp *string, entry string, cap int, f func() (string, err
 		w.log(op, "ok"+r.val+meters)
 	}
 	// steps: string-level operations bounded by the input
-	if !r.spin && r.calls > w.inBytes+8 {
-		w.violate("C13:steps:"+entry, fmt.Sprintf("%s performed %d string-level operations on %d input bytes", entry, r.calls, w.inBytes), fmt.Sprintf("≤ %d", w.inBytes+8), fmt.Sprint(r.calls))
+	// (the count is of stream.IsEncrypted() queries; how many of them one string costs is an internal
+	// matter — the bound leaves room for several per string, the exact count is compared with the
+	// model only, as a correspondence detail)
+	if lim := 4*w.inBytes + 64; !r.spin && r.calls > lim {
+		w.violate("C13:steps:"+entry, fmt.Sprintf("%s performed %d string-level operations on %d input bytes", entry, r.calls, w.inBytes), fmt.Sprintf("≤ %d", lim), fmt.Sprint(r.calls))
 	}
 	// allocation in proportion to the input
 	if lim := uint64(64*w.inBytes + (1 << 20)); r.alloc > lim {
